@@ -515,11 +515,11 @@ def data_cases(quick):
     else:
         for pair in lvl1 + grid:
             for seq in ertm_seqs(3):
-                for rev in revs[:3]:
+                for rev in revs[:3] if len(seq) <= 2 else ['mirror']:
                     add(pair, seq, rev)
         for pair in ertm_configs(2):
             for seq in ertm_seqs(2):
-                for rev in revs[:3]:
+                for rev in ('mirror', 'echo'):
                     add(pair, seq, rev)
         for pair in lvl1:
             for seq in ertm_seqs(2):
@@ -681,21 +681,25 @@ def run(ctx: core.Context) -> int:
         st = ctx.sub('setup_sched')
         bound = 1 if quick else 2
         for label, params in setup_sched_cases(quick):
-            explore.explore(run_explore, dict(params, seed=seed), bound, ctx.jobs, st, max_runs=4000 if quick else 60000, label=f'{label}:')
+            explore.explore(run_explore, dict(params, seed=seed), bound, ctx.jobs, st, max_runs=4000 if quick else 20000, label=f'{label}:')
         ctx.log('setup:', ctx.sub('setup').summary())
         ctx.log('setup_sched:', st.summary())
     if want('data'):
         cases = permute(data_cases(quick))
         ctx.log(f'data: {len(cases)} cases')
-        for r in core.pmap(w_cases, [('data', part, seed) for part in core.split(cases, ctx.jobs * 8)], ctx.jobs):
-            ctx.sub('data').merge(r)
+        nb = 1 if quick else 8
+        for bi, batch in enumerate(core.split(cases, nb)):
+            for r in core.pmap(w_cases, [('data', part, seed) for part in core.split(batch, ctx.jobs * 4)], ctx.jobs):
+                ctx.sub('data').merge(r)
+            if nb > 1:
+                ctx.log(f'data: batch {bi + 1}/{nb} done, {ctx.sub("data").evaluations} evaluated, {len(ctx.sub("data").violations)} violation signatures')
         ctx.log('data:', ctx.sub('data').summary())
     if want('sched'):
         st = ctx.sub('sched')
         bound = 1 if quick else 2
         for label, params in SCHED_CASES:
             explore.explore(
-                run_explore, dict(params, explore='data', seed=seed), bound, ctx.jobs, st, max_runs=3000 if quick else 40000, label=f'{label}:'
+                run_explore, dict(params, explore='data', seed=seed), bound, ctx.jobs, st, max_runs=3000 if quick else 20000, label=f'{label}:'
             )
         ctx.log('sched:', st.summary())
     if want('timer'):
